@@ -111,6 +111,16 @@ pub fn generate(thorough: bool, r: &mut Rng, em: &mut Emit) {
             let mut e = t.clone(); e.extend_from_slice("é".as_bytes()); texts.push(e);
             let mut e = t.clone(); e.push(b'='); texts.push(e);
             texts.push(t.to_ascii_uppercase());
+            // non-ASCII characters that Unicode case mapping or compatibility folding sends to ASCII letters/digits/dash:
+            // a parser that normalises with anything but ASCII case folding accepts them
+            let ts = String::from_utf8(t.clone()).unwrap();
+            for (from, to) in [('s', "\u{17f}"), ('i', "\u{131}"), ('k', "\u{212a}"), ('a', "\u{ff41}"), ('a', "\u{430}"), ('-', "\u{2010}"), ('-', "\u{2212}"),
+                               ('2', "\u{ff12}"), ('e', "\u{435}"), ('o', "\u{3bf}"), ('i', "\u{130}")] {
+                for (pos, ch) in ts.char_indices() {
+                    if ch == from { let mut e = String::new(); e.push_str(&ts[..pos]); e.push_str(to); e.push_str(&ts[pos + 1..]); texts.push(e.into_bytes()); em.stat("edit.unicode-lookalike"); }
+                }
+            }
+            if let Some(pos) = ts.find("ss") { let e = format!("{}\u{df}{}", &ts[..pos], &ts[pos + 2..]); texts.push(e.into_bytes()); em.stat("edit.unicode-lookalike"); }
         }
     }
     for _ in 0..100 * scale { let n = r.range(0, 70) as usize; texts.push((0..n).map(|_| *r.pick(EDIT_ALPHABET)).collect()); em.stat("text.random"); }
